@@ -1,4 +1,4 @@
-"""Catalogue of generic macro invocations for C17's macro-fuzz mode.
+"""Catalogue of generic macro invocations (C17's macro-fuzz mode, C04's catalogue sweep).
 
 Every Command / Environment class of plasTeX.Base.LaTeX (the user-level macros)
 gets one invocation synthesised from its `args` template; each candidate is
@@ -26,7 +26,7 @@ ProvidesClass AtBeginDocument AtEndDocument newsavebox sbox savebox usebox globa
 multicolumn hline cline vline tabularnewline noalign omit span cr crcr halign valign'''.split())
 
 
-def synth(name, args, is_env, n):
+def synth(name, args, is_env, n, dimen='{2pt}'):
     """-> LaTeX text or None if the template is not one we synthesise for."""
     toks = re.findall(r'\[[^\]]*\]|\([^)]*\)|<[^>]*>|\S+', args or '')
     out = ''
@@ -46,7 +46,7 @@ def synth(name, args, is_env, n):
         if typ in ('number', 'int', 'integer'):
             out += '3 '
         elif typ in ('dimen', 'length', 'dimension', 'glue', 'skip', 'mudimen', 'muglue'):
-            out += '2pt '
+            out += dimen
         elif typ in ('cs',):
             out += '\\fzmacro '
         elif typ in ('tok', 'xtok', 'token', 'chr', 'char'):
@@ -117,7 +117,7 @@ def _build_in_child():
             d = t.parse()
             d.toXML()
             signal.alarm(0)
-            ok.append([name, text])
+            ok.append([name, text, args, is_env])
         except BaseException:
             signal.alarm(0)
     return ok
